@@ -184,11 +184,21 @@ def parse_assumptions(src, stdout):
     return res
 
 
+def _big_stack():
+    """coqc parses multi-MB list literals recursively: lift the stack limit for the child"""
+    import resource
+    try:
+        soft, hard = resource.getrlimit(resource.RLIMIT_STACK)
+        resource.setrlimit(resource.RLIMIT_STACK, (hard, hard))
+    except Exception:
+        pass
+
+
 def coqc_text(text, workdir, name, timeout=900):
     f = Path(workdir) / f'{name}.v'
     f.write_text(text, encoding='utf-8')
     p = subprocess.run(['timeout', str(timeout), 'coqc', '-Q', str(COQ), 'Darr',
-                        f.name], cwd=workdir, capture_output=True, text=True)
+                        f.name], cwd=workdir, capture_output=True, text=True, preexec_fn=_big_stack)
     return p.returncode, p.stdout, p.stderr
 
 
@@ -429,7 +439,7 @@ class Ctx:
                 reap(True)
             p = subprocess.Popen(['timeout', str(timeout), 'coqc', '-Q', str(COQ), 'Darr', f.name],
                                  cwd=str(self.work), stdout=subprocess.PIPE,
-                                 stderr=subprocess.PIPE, text=True)
+                                 stderr=subprocess.PIPE, text=True, preexec_fn=_big_stack)
             running.append((k, f, p))
         while running:
             reap(True)
